@@ -3,12 +3,16 @@
 use serde_json::{json, Value};
 use std::io::{self, BufRead, Write};
 
+mod driver;
 mod regs;
+mod rt;
 mod timer;
 
 pub struct Ctx {
     pub regs: regs::RegsCtx,
     pub timer: timer::TimerCtx,
+    pub rt: rt::RtCtx,
+    pub driver: driver::DriverCtx,
 }
 
 fn dispatch(ctx: &mut Ctx, req: &Value) -> Result<Value, String> {
@@ -17,6 +21,8 @@ fn dispatch(ctx: &mut Ctx, req: &Value) -> Result<Value, String> {
         "ping" => Ok(json!({"pong": true})),
         c if c.starts_with("regs.") => regs::handle(&mut ctx.regs, c, req),
         c if c.starts_with("timer.") => timer::handle(&mut ctx.timer, c, req),
+        c if c.starts_with("rt.") => rt::handle(&mut ctx.rt, c, req),
+        c if c.starts_with("driver.") => driver::handle(&mut ctx.driver, c, req),
         _ => Err(format!("unknown cmd {cmd}")),
     }
 }
@@ -25,7 +31,7 @@ fn main() {
     let stdin = io::stdin();
     let stdout = io::stdout();
     let mut out = io::BufWriter::new(stdout.lock());
-    let mut ctx = Ctx { regs: regs::RegsCtx::default(), timer: timer::TimerCtx::default() };
+    let mut ctx = Ctx { regs: regs::RegsCtx::default(), timer: timer::TimerCtx::default(), rt: rt::RtCtx::default(), driver: driver::DriverCtx::default() };
     for line in stdin.lock().lines() {
         let line = match line {
             Ok(l) => l,
